@@ -64,8 +64,21 @@ def gen_rates(rnd):
 
 
 def generate(rnd, tier):
-    big = rnd.random() < 0.07
+    big = rnd.random() < 0.09
     obj = c11.gen_source(rnd, "large" if big else rnd.choice(["tiny", "small", "small"]), False)
+    r_ = rnd.random()
+    if not big and r_ < 0.12:
+        # class sizes between the small and the large regime (41-130), and now and then very large ones
+        # (more than 512 support points): size-dependent branches and blocked/vectorised paths live there
+        for key in ("pos", "neg"):
+            obj[key] = c11.gen_values(rnd, rnd.randint(41, 130), obj.get("style", "unique") if obj.get("style") != "const" else "ties", -3.0, 6.0)
+            if obj.get("dtype") == "int64":
+                obj[key] = [int(v) for v in obj[key]]
+        big = True
+    elif big and r_ < 0.25:
+        for key in ("pos", "neg"):
+            obj[key] = c11.gen_values(rnd, rnd.randint(280, 420), "unique", -3.0, 6.0)
+        obj["dtype"] = "float64"
     if rnd.random() < 0.8:
         obj["nb_easy_pos"] = obj["nb_easy_neg"] = 0
     ops = []
